@@ -386,6 +386,58 @@ def check_wrapper_shapes(model, rep):
                 nskip += 1
                 rep.info(f'R06.8 {f.key}:{c.lineno}: shape expressions of evaluable.{cls.name} use a construct the interpreter does not know ({e}); not decided')
                 continue
+            # element kind: announced dtype=D against the node's dtype for every operand kind the node accepts
+            if 'dtype' in kw:
+                dmem = cls.members.get('dtype')
+                pre = cls.members.get('__post_init__')
+                for kind in ('bool', 'int', 'float', 'complex'):
+                    kattrs = {k_: (Arr(v.shape, dtype=kind) if isinstance(v, Arr) and not isinstance(v, Scal) else v) for k_, v in attrs.items()}
+                    kenv = {k_: (Arr(v.shape, dtype=kind) if isinstance(v, Arr) else v) for k_, v in env.items()}
+                    try:
+                        if pre is not None and pre.func is not None:
+                            accepted = True
+                            for a_ in ast.walk(pre.func.node):
+                                if isinstance(a_, ast.Assert):
+                                    for cmp_ in ast.walk(a_.test):
+                                        if isinstance(cmp_, ast.Compare) and 'dtype' in src(cmp_) and src(cmp_).startswith('self.') and 'isinstance' not in src(cmp_):
+                                            try:
+                                                if ShapeExec({'self': Obj(**kattrs)}).ev(cmp_) is False:
+                                                    accepted = False
+                                            except (Unsupported, ShapeError, KeyError, TypeError):
+                                                pass
+                            if not accepted:
+                                continue
+                        # kinds that cannot reach the site: an earlier `if <test on a dtype>:` that is true for this kind and returns, raises or converts
+                        reach = True
+                        for g in ast.walk(f.node):
+                            if isinstance(g, ast.If) and g.lineno < c.lineno and 'dtype' in src(g.test) and not any(x is c for x in ast.walk(g)):
+                                try:
+                                    hit = ShapeExec(kenv).ev(g.test)
+                                except (Unsupported, ShapeError, KeyError, TypeError):
+                                    reach = False   # cannot tell: do not judge this kind
+                                    break
+                                if hit and any(isinstance(b, (ast.Return, ast.Raise)) or (isinstance(b, ast.Assign) and isinstance(b.value, ast.Call) and method_name(b.value) == 'astype') for b in g.body):
+                                    reach = False
+                                    break
+                        if not reach:
+                            continue
+                        ann = ShapeExec(kenv).ev(kw['dtype'])
+                        if dmem is not None and dmem.func is not None:
+                            dlv = ShapeExec({'self': Obj(**kattrs)}).call(dmem.func.node)
+                        elif dmem is not None and isinstance(dmem.node, ast.Assign):
+                            dlv = ShapeExec({}).ev(dmem.node.value)
+                        else:
+                            break
+                    except (Unsupported, ShapeError, KeyError, TypeError):
+                        continue
+                    except Exception as e_:
+                        if type(e_).__name__ in ('Raised',):
+                            continue
+                        raise
+                    okd = ann == dlv
+                    rep.ob('R06.8', f.key, f.where(c), okd, f'evaluable.{cls.name}: the announced element kind `{src(kw["dtype"])[:40]}` is the node\'s for {kind} operands' if okd else
+                           f'`{src(c)[:60]}` announces element kind {ann} for {kind} operands, evaluable.{cls.name}.dtype is {dlv}: the function array reports another kind than its evaluation delivers',
+                           statement=f'announced-kind {cls.name}@{f.name}/{kind}')
             n += 1
             want = (['*P'] if withpts else []) + announced
             ok = delivered == want
